@@ -119,7 +119,15 @@ def run_case(case, rec, cid):
                 from metomi.isodatetime.dumpers import TimePointDumper
                 s_ = TimePointDumper().dump(p, "CCYYWww")
                 sf = sf + [int(s_[:4]), int(s_[5:7])]
-            return dict(p=proj_tp(p), tc=proj_tp(p.to_calendar_date()), to=proj_tp(p.to_ordinal_date()),
+            fb = []
+            if cur_mode() == "gregorian" and 1 <= gc[0] <= 9999 and 1 <= p.year <= 9999 and int(p.hour_of_day) < 24:
+                # beyond the listed properties: the command line's fallback to Python's own strftime for directives the library
+                # refuses (%u %a ...) must name the same civil day
+                from metomi.isodatetime.datetimeoper import DateTimeOperator
+                st_, txt = outcome(lambda: DateTimeOperator().strftime(p, "%u %d %m %Y %a"))
+                if st_ == "ok":
+                    fb = [int(x) for x in txt.split()[:4]]
+            return dict(fb=fb, p=proj_tp(p), tc=proj_tp(p.to_calendar_date()), to=proj_tp(p.to_ordinal_date()),
                         tw=proj_tp(p.to_week_date()), gc=[I(v) for v in gc],
                         go=[I(v) for v in p.get_ordinal_date()], gw=[I(v) for v in p.get_week_date()], sf=sf)
         st, val = outcome(f)
